@@ -150,3 +150,106 @@ impl Acc {
         o
     }
 }
+
+// ---------------------------------------------------------------------------------------------
+// (De)serialisation, used to merge the accumulators of child processes.
+
+impl Acc {
+    pub fn to_json(&self) -> J {
+        let mut c = J::obj();
+        for (k, v) in &self.counters {
+            c.put(k, *v);
+        }
+        let mut m = J::obj();
+        for (k, v) in &self.maxima {
+            m.put(k, *v);
+        }
+        let mut d = J::obj();
+        for (k, v) in &self.distinct {
+            d.put(k, J::Arr(v.iter().map(|x| J::Str(format!("{:x}", x))).collect()));
+        }
+        let mut sh = J::obj();
+        for (k, v) in &self.sig_hits {
+            sh.put(k, *v);
+        }
+        J::obj()
+            .set("counters", c)
+            .set("maxima", m)
+            .set("distinct", d)
+            .set("sig_hits", sh)
+            .set("samples", J::Arr(self.samples.iter().map(|(c, j)| J::Arr(vec![J::Int(*c as i128), j.clone()])).collect()))
+            .set(
+                "violations",
+                J::Arr(
+                    self.violations
+                        .iter()
+                        .map(|v| J::obj().set("case", v.case).set("sig", v.sig.clone()).set("summary", v.summary.clone()).set("detail", v.detail.clone()))
+                        .collect(),
+                ),
+            )
+            .set("violation_count", self.violation_count)
+            .set("inconclusive", J::Arr(self.inconclusive.iter().map(|s| J::Str(s.clone())).collect()))
+    }
+
+    pub fn from_json(j: &J) -> Acc {
+        let mut a = Acc::new();
+        if let Some(J::Obj(o)) = j.get("counters") {
+            for (k, v) in o {
+                a.counters.insert(k.clone(), v.as_i().unwrap_or(0) as u64);
+            }
+        }
+        if let Some(J::Obj(o)) = j.get("maxima") {
+            for (k, v) in o {
+                a.maxima.insert(k.clone(), v.as_i().unwrap_or(0) as u64);
+            }
+        }
+        if let Some(J::Obj(o)) = j.get("distinct") {
+            for (k, v) in o {
+                let mut set = HashSet::new();
+                if let J::Arr(xs) = v {
+                    for x in xs {
+                        if let Some(s) = x.as_str() {
+                            if let Ok(n) = u64::from_str_radix(s, 16) {
+                                set.insert(n);
+                            }
+                        }
+                    }
+                }
+                a.distinct.insert(k.clone(), set);
+            }
+        }
+        if let Some(J::Obj(o)) = j.get("sig_hits") {
+            for (k, v) in o {
+                a.sig_hits.insert(k.clone(), v.as_i().unwrap_or(0) as u64);
+            }
+        }
+        if let Some(J::Arr(xs)) = j.get("samples") {
+            for x in xs {
+                if let J::Arr(p) = x {
+                    if p.len() == 2 {
+                        a.samples.push((p[0].as_i().unwrap_or(0) as u64, p[1].clone()));
+                    }
+                }
+            }
+        }
+        if let Some(J::Arr(xs)) = j.get("violations") {
+            for x in xs {
+                a.violations.push(Violation {
+                    case: x.get("case").and_then(|c| c.as_i()).unwrap_or(0) as u64,
+                    sig: x.get("sig").and_then(|s| s.as_str()).map(|s| s.to_string()),
+                    summary: x.get("summary").and_then(|s| s.as_str()).unwrap_or("").to_string(),
+                    detail: x.get("detail").cloned().unwrap_or(J::Null),
+                });
+            }
+        }
+        a.violation_count = j.get("violation_count").and_then(|c| c.as_i()).unwrap_or(0) as u64;
+        if let Some(J::Arr(xs)) = j.get("inconclusive") {
+            for x in xs {
+                if let Some(s) = x.as_str() {
+                    a.inconclusive.push(s.to_string());
+                }
+            }
+        }
+        a
+    }
+}
